@@ -337,11 +337,10 @@ inductive RecRes where
   | item (it : Item) (rd : Reader) (v : List Rec × Tail)
   | finished (rd : Reader)
   | err (e : Err) (rd : Reader)
-  | oom (rd : Reader)
   | outOfFuel
 
 /-- One `Reader::read` call on a stream given as records. -/
-def recRead (cfg : Cfg) (rd : Reader) (v : List Rec × Tail) : RecRes :=
+def recRead (_cfg : Cfg) (rd : Reader) (v : List Rec × Tail) : RecRes :=
   match viewKind v with
   | .fail e => .err e rd.norm
   | .fuel => .outOfFuel
@@ -352,23 +351,21 @@ def recRead (cfg : Cfg) (rd : Reader) (v : List Rec × Tail) : RecRes :=
     | .proceed =>
       match v with
       | (r :: rs, t) =>
-        match rd.norm.post cfg r.item with
+        match rd.norm.post r.item with
         | .item it rd' => .item it rd' (rs, t)
         | .finished rd' => .finished rd'
         | .err e rd' => .err e rd'
-        | .oom rd' => .oom rd'
       | ([], .restErr _ e) => .err (.item e) rd.norm
       | ([], _) => .err .unexpectedEnd rd.norm
 
 def recRun (cfg : Cfg) : Nat → Reader → List Rec × Tail → Output
-  | 0, rd, _ => ⟨[], .outOfFuel, rd.cidsEnd⟩
+  | 0, rd, _ => ⟨[], .outOfFuel, rd.access⟩
   | fuel + 1, rd, v =>
     match recRead cfg rd v with
     | .item it rd' v' => (recRun cfg fuel rd' v').cons it
-    | .finished rd' => ⟨[], .finished, rd'.cidsEnd⟩
-    | .err e rd' => ⟨[], .err e, rd'.cidsEnd⟩
-    | .oom rd' => ⟨[], .oom, rd'.cidsEnd⟩
-    | .outOfFuel => ⟨[], .outOfFuel, rd.cidsEnd⟩
+    | .finished rd' => ⟨[], .finished, rd'.access⟩
+    | .err e rd' => ⟨[], .err e, rd'.access⟩
+    | .outOfFuel => ⟨[], .outOfFuel, rd.access⟩
 
 /-- The records the reader is going to see, given its look-ahead. -/
 def viewOf (hasEx : Bool) (rd : Reader) (s : List UInt8) : List Rec × Tail :=
@@ -400,8 +397,8 @@ theorem pre_emit_nextKind {rd rd' : Reader} {k : Kind} {it : Item} (h : rd.pre k
       · simp only [Pre.emit.injEq] at h; obtain ⟨_, rfl⟩ := h; rfl
       · simp at h
 
-theorem post_nextKind {cfg : Cfg} {rd : Reader} {fit : FItem} :
-    (∀ it rd', rd.post cfg fit = .item it rd' → rd'.nextKind = rd.nextKind) := by
+theorem post_nextKind {rd : Reader} {fit : FItem} :
+    (∀ it rd', rd.post fit = .item it rd' → rd'.nextKind = rd.nextKind) := by
   intro it rd' h
   unfold Reader.post at h
   cases fit <;> simp only at h <;> (repeat' split at h) <;>
@@ -409,7 +406,7 @@ theorem post_nextKind {cfg : Cfg} {rd : Reader} {fit : FItem} :
       | (simp at h; done)
       | (simp only [Post.item.injEq] at h; obtain ⟨_, rfl⟩ := h; rfl)
 
-theorem cidsEnd_norm (rd : Reader) : rd.norm.cidsEnd = rd.cidsEnd := rfl
+theorem cidsEnd_norm (rd : Reader) : rd.norm.access = rd.access := rfl
 
 /-- `readWithKind` and the record-level step agree — unless the callback fails. -/
 theorem readWithKind_lockstep (cfg : Cfg) (rd : Reader) (k : Kind) (b : Buffer) (c : Cb) (hw : b.wf)
@@ -421,7 +418,6 @@ theorem readWithKind_lockstep (cfg : Cfg) (rd : Reader) (k : Kind) (b : Buffer) 
         it = it2 ∧ rd' = rd2 ∧ b'.wf ∧ v' = viewOf cfg.hasEx rd' (logical b' c') ∧ (c.noFail → c'.noFail)
     | .finished rd', .finished rd2 => rd' = rd2
     | .err e rd', .err e2 rd2 => e = e2 ∧ rd' = rd2
-    | .oom rd', .oom rd2 => rd' = rd2
     | _, _ => False := by
   intro v
   have hnorm : rd.norm = rd := by cases rd; simp only [Reader.norm]; simp at hn; simp [hn]
@@ -459,7 +455,7 @@ theorem readWithKind_lockstep (cfg : Cfg) (rd : Reader) (k : Kind) (b : Buffer) 
         have hv' : v = (⟨k, fit⟩ :: rs, t) := hv
         rw [hv']
         simp only
-        cases hpost : rd.post cfg fit with
+        cases hpost : rd.post fit with
         | item it rd' =>
           simp only
           refine ⟨by trivial, by trivial, hw', ?_, fun h => (hnf h).2 _ _ _ hpl⟩
@@ -477,7 +473,6 @@ theorem readWithKind_lockstep (cfg : Cfg) (rd : Reader) (k : Kind) (b : Buffer) 
           simp [Reader.post] at hpost
         | finished rd' => simp
         | err e rd' => simp
-        | oom rd' => simp
 
 theorem recRead_norm (cfg : Cfg) (rd : Reader) (v : List Rec × Tail) :
     recRead cfg rd.norm v = recRead cfg rd v := rfl
@@ -528,7 +523,7 @@ theorem runItems_vs_recRun (cfg : Cfg) : ∀ (F : Nat) (rd : Reader) (b : Buffer
           | ok fit b2 c2 =>
             rw [hpl] at hcb
             simp only at hcb
-            cases hpost : rd.norm.post cfg fit <;> rw [hpost] at hcb <;> simp at hcb
+            cases hpost : rd.norm.post fit <;> rw [hpost] at hcb <;> simp at hcb
       · rw [hv, recRead_norm] at hls
         cases h1 : Reader.readWithKind cfg rd.norm k b1 c1 <;>
           cases h2 : recRead cfg rd (viewOf cfg.hasEx rd (logical b c)) <;>
@@ -544,7 +539,6 @@ theorem runItems_vs_recRun (cfg : Cfg) : ∀ (F : Nat) (rd : Reader) (b : Buffer
             exact (List.prefix_cons_inj _).mpr hpre
         · subst hls; left; rfl
         · obtain ⟨rfl, rfl⟩ := hls; left; rfl
-        · subst hls; left; rfl
     cases hnk : rd.nextKind with
     | some k =>
       have hv : recsAfter cfg.hasEx k (logical b c) = viewOf cfg.hasEx rd (logical b c) := by
